@@ -416,14 +416,17 @@ TIES = {
             ('SrcTn.v', ['PyPrelude', 'PgmState', 'TnState', 'SrcTn', 'EquivTn'], 'EquivTn')],
     'C16': [('SrcDev.v', ['PyPrelude', 'PgmState', 'AeState', 'SrcAe', 'EquivAe', 'DevState', 'SrcDev', 'EquivDev'], ['EquivAe', 'EquivDev']),
             ('SrcHl.v', ['PyPrelude', 'PgmState', 'AeState', 'SrcHl', 'EquivHl'], 'EquivHl')],
-    'C10': ('SrcAp.v', ['PyPrelude', 'PgmState', 'NpState', 'SrcAp', 'EquivAp'], 'EquivAp'),
+    'C10': [('SrcAp.v', ['PyPrelude', 'PgmState', 'NpState', 'SrcAp', 'EquivAp'], 'EquivAp'),
+            # the raster builder stores through add_path only (its loop: C15)
+            ('SrcRi.v', ['PyPrelude', 'PgmState', 'NpState', 'SrcUf', 'EquivUf', 'RiState', 'SrcRi', 'EquivRi'], 'EquivRi')],
     'C11': ('SrcUf.v', ['PyPrelude', 'PgmState', 'NpState', 'SrcUf', 'EquivUf'], 'EquivUf'),
     'C14': ('SrcMk.v', ['PyPrelude', 'PgmState', 'MkState', 'SrcMk', 'EquivMk'], 'EquivMk'),
+    'C15': ('SrcRi.v', ['PyPrelude', 'PgmState', 'NpState', 'SrcUf', 'EquivUf', 'RiState', 'SrcRi', 'EquivRi'], 'EquivRi'),
     'C18': ('SrcSs.v', ['PyPrelude', 'PgmState', 'SsState', 'SrcSs', 'EquivSs'], 'EquivSs'),
     'C19': ('SrcPa.v', ['PyPrelude', 'PgmState', 'PaState', 'SrcPa', 'EquivPa'], 'EquivPa'),
     'C07': ('SrcTr.v', ['PyPrelude', 'PgmState', 'TrState', 'SrcTr', 'EquivTr'], 'EquivTr'),
 }
-TIE_NEEDS = {'SrcWr.v': ['pgm'], 'SrcFc.v': ['pgm'], 'SrcDev.v': ['SrcAe.v']}      # other generated files a group builds on
+TIE_NEEDS = {'SrcWr.v': ['pgm'], 'SrcFc.v': ['pgm'], 'SrcDev.v': ['SrcAe.v'], 'SrcRi.v': ['SrcUf.v']}      # other generated files a group builds on
 TIE_PROPS = set(TIES)
 COQ_W = '-deprecated-hint-without-locality,-deprecated-instance-without-locality,-notation-overridden'
 
